@@ -18,6 +18,7 @@ Str = z3.DeclareSort('Str')
 startsf = z3.Function('startsf', Str, z3.BoolSort())
 numstr = z3.Function('numstr', BV32, Str); fstr = z3.Function('fstr', BV32, Str)       # the numeral of k, "f" + the numeral of k
 numinv = z3.Function('numinv', Str, BV32); finv = z3.Function('finv', Str, BV32)
+starts0 = z3.Function('starts0', Str, z3.BoolSort())
 kind = z3.Function('kind', Str, z3.BitVecSort(2))                                      # 0 numeral, 1 f+numeral, 2 any other text
 def string_axioms():
     k = z3.BitVec('ax_k', 32)
@@ -49,10 +50,34 @@ def c17_parse(ex, c, args, m):
         if ex.decide(kind(s.x) == 1): return ok(finv(s.x))
         return err(Opaque('ParseIntError'))
     return err(Opaque('ParseIntError'))
+@M.add(r'^<u32 as ToString>::to_string$', front=True)
+def c17_u32_to_string(ex, c, args, m):
+    v = S(args[0])
+    return SV('num', v) if z3.is_expr(v) else NotImplemented
+@M.add(r'^<String as PartialEq<&?str>>::eq$|^<str as PartialEq<String>>::eq$|^<&str as PartialEq<String>>::eq$|^<String as PartialEq>::eq$|^<str as PartialEq>::eq$', front=True)
+def c17_str_eq(ex, c, args, m):
+    a, b = S(args[0]), S(args[1])
+    if not (isinstance(a, SV) and isinstance(b, SV)): return NotImplemented
+    if b.kind == 'num' and a.kind != 'num': a, b = b, a
+    if a.kind == 'num':      # a canonical numeral against: another numeral, an f-numeral, a text, the tail (s[1..]) of a text that starts with f
+        if b.kind == 'num': return a.x == b.x
+        if b.kind == 'fnum': return z3.BoolVal(False)
+        if b.kind == 'text': return numstr(a.x) == b.x
+        if b.kind == 'tail': return b.x == fstr(a.x)          # "f" + numeral(k) is exactly fstr(k)
+    if a.kind == b.kind and a.kind in ('text', 'fnum'): return a.x == b.x
+    if {a.kind, b.kind} == {'text', 'fnum'}: return (a.x if a.kind == 'text' else b.x) == fstr(b.x if b.kind == 'fnum' else a.x)
+    raise Unsupported('string comparison %s / %s' % (a.kind, b.kind))
 @M.add(r'^core::str::<impl str>::starts_with::<', front=True)
 def c17_starts(ex, c, args, m):
     s = S(args[0])
     if not isinstance(s, SV): return NotImplemented
+    pat = S(args[1])
+    pat = chr(pat) if isinstance(pat, int) else (chr(conc(pat)) if z3.is_expr(pat) else str(pat))
+    if pat == '0':      # a canonical numeral starts with 0 only if it is "0"; an f-numeral never does; unknown for other text
+        if s.kind == 'num': return s.x == 0
+        if s.kind == 'fnum': return z3.BoolVal(False)
+        return starts0(s.x) if s.kind == 'text' else z3.And(kind(s.x) == 1, z3.Or(finv(s.x) == 0, s.x != fstr(finv(s.x))))
+    if pat != 'f': raise Unsupported('starts_with(%r) on an abstract name' % pat)
     if s.kind == 'num': return z3.BoolVal(False)
     if s.kind == 'fnum': return z3.BoolVal(True)
     return startsf(s.x)
@@ -278,6 +303,16 @@ def run_variant(overflow, P):
         if p['kind'] == 'panic': P.prove('%s named_text:no_panic[%s]' % (tag, p['result']['msg'][:40]), ht, z3.Not(z3.And(*pc))); continue
         r, t = p['result']
         interned_obligations(tag + ' named_text', s0, ht + pc, r, t)
+    # ---- named(text) where the text is a NON-canonical spelling of a numeral ("07", "+7") or of f<numeral> ("f07"): str::parse::<u32> accepts those,
+    # so the name must not end up as the slot of the canonical spelling ("distinct slot names denote distinct slots")
+    ka = z3.BitVec('k_a', 32)
+    for form, kval, canon_, slot_of in ((0, numinv, numstr, lambda k_: 4 * k_), (1, finv, fstr, lambda k_: 4 * k_ + 1)):
+        ha = inv(idx, vec, mp, issued) + [kind(s0) == form, kval(s0) == ka, s0 != canon_(ka), startsf(s0) == z3.BoolVal(form == 1), z3.ULT(ka, 1 << 29)]
+        for p in ex.explore(entry_t):
+            pc = p['pc']
+            if p['kind'] == 'panic': P.prove('%s named_alias%d:no_panic[%s]' % (tag, form, p['result']['msg'][:40]), ha, z3.Not(z3.And(*pc))); continue
+            r, t = p['result']
+            P.prove('%s named_alias%d:distinct_names_distinct_slots' % (tag, form), ha + pc, r.f[0] != slot_of(ka))
     # ---- display / parse round trip
     slv = z3.BitVec('slot_rt', 32)
     def entry_rt(ex_):
@@ -306,6 +341,8 @@ def native_script(model, obligation=''):
     ops.append(('numeric', '0')); ops.append(('named', 'f0'))
     if 'named_num' in obligation: ops.append(('named', str(int(model.get('k_n', '0')))))
     elif 'named_f' in obligation: ops.append(('named', 'f%d' % int(model.get('k_f', '0'))))
+    elif 'named_alias0' in obligation: ops.append(('named', '0%d' % int(model.get('k_a', '0')))); ops.append(('named', '%d' % int(model.get('k_a', '0'))))
+    elif 'named_alias1' in obligation: ops.append(('named', 'f0%d' % int(model.get('k_a', '0')))); ops.append(('named', 'f%d' % int(model.get('k_a', '0'))))
     elif 'roundtrip' in obligation:
         v = int(model.get('slot_rt', '0'))
         if v % 4 == 0: ops.append(('numeric', str(v // 4)))
@@ -373,7 +410,7 @@ def run(tier, seed=0):
            'evaluations': len(P.results), 'distinct_nontrivial': len({r['obligation'] for r in P.results}),
            'rule': 'one evaluation = one (path of a slot constructor from an arbitrary table state, obligation) query decided by z3',
            'functions_encoded': sorted(short_fn(f) for f in fenc), 'library_models': sorted(lmod), 'solver_time_s': round(P.t, 2),
-           'bounds': 'numeric / f<n> names with n < 2^30; fewer than 2^30-2 fresh slots issued so far; names in the three canonical forms Num(k), F(k), Text(s) (numerals with leading zeros or + are outside); table = SMT arrays under the quantified invariant Inv',
+           'bounds': 'numeric / f<n> names with n < 2^30; fewer than 2^30-2 fresh slots issued so far; names in the forms Num(k), F(k), other Text(s), and non-canonical spellings of numerals / f-numerals (anything else str::parse::<u32> accepts, e.g. leading zeros or +); table = SMT arrays under the quantified invariant Inv',
            'exhaustive': False}
     common.write_evidence('C17', tier, 'model_checking', cov, ['thread-locality of the table is taken from thread_local!', 'String/HashMap<String,u32>/Vec<String> modelled as an uninterpreted sort with SMT arrays'], time.time() - t0, len(violations), seed)
     return common.finish('C17', violations, known_hits, inconclusive)
